@@ -1,6 +1,7 @@
 import Chewing.Proofs.Loader
 import Chewing.Proofs.UhashRoundtrip
 import Chewing.Proofs.UhashBin
+import Chewing.Proofs.UhashText
 import Chewing.Proofs.SqliteV1
 /-!
 # C19 — Legacy user data is migrated completely, exactly once, and never destroyed
@@ -15,7 +16,13 @@ closing it stores this map in `chewing.dat` and re-opening yields it back is C10
   frequency": `bin_reader_complete`, `migrate_bin_complete` (the binary encoding of ANY store of valid records, with deleted
   and negative records interspersed and any lifetime, reads back exactly its live records) and
   `migrate_complete` (every record the reader yields is in the new dictionary under its key with
-  its frequency and time); `migrate_exact` (nothing else is).
+  its frequency and time); `migrate_exact` (nothing else is).  The TEXT format likewise:
+  `text_reader_complete`, `migrate_text_complete` (the text file written for ANY store of `GRec.TextValid`
+  records — the grammar of `tests/data/golden-uhash-text.dat` — with any `i64` lifetime reads back exactly
+  its live records, also with `\r\n` line ends and trailing blanks: `text_reader_complete_crlf_pad`), on top of
+  the decimal print/parse round trip `decimal_roundtrip` / `decimal_signed_roundtrip`; what the text format
+  cannot express is shown by `text_reader_complete_full_refuted`, `text_separator_refuted`,
+  `text_charcount_refuted`, `text_negative_field_rejected`.
 * "the legacy store still holds all its records": `legacy_untouched`.
 * "creating the context again neither duplicates nor alters entries": `second_start_same`.
 * "phrases learned afterwards are kept alongside the migrated ones": `learn_then_restart_keeps_both`.
@@ -187,11 +194,159 @@ theorem lifetime_fixed_accepts :
     loadUhash f26File = .ok (.ok [{ syls := [10268, 8708], phrase := [0xE7, 0xAD, 0x96, 0xE8, 0xA9, 0xA6], freq := 9, time := 7 }]) := by
   decide +kernel
 
+/-! ## The text format: the reader accepts what the legacy engine wrote
+
+Writer model `Model/UhashTextEnc.lean` (`encodeText` = byte for byte what the harness generator `enc_text` writes =
+the grammar of the fixture `tests/data/golden-uhash-text.dat`; compared with it on every generated text store by the
+`loader enctext` records), proofs `Proofs/UhashDecimal.lean`, `Proofs/UhashText.lean`. -/
+
+/-- the `i64` range as the hypothesis on the header number -/
+def I64 (z : Int) : Prop := -9223372036854775808 ≤ z ∧ z < 9223372036854775808
+
+/-- `decimal_roundtrip`: `str::parse::<uN>` ∘ `format!("{}")` — the decimal image of `n` (ASCII digits, non-empty, no
+    leading zero) parses to `n` iff `n` fits the type (both directions) -/
+theorem decimal_roundtrip (max n : Nat) :
+    parseUnsigned max (natToDigits n) = (if n ≤ max then some n else none) ∧
+    digitsVal (natToDigits n) = n ∧ (natToDigits n).all isDigit = true ∧ natToDigits n ≠ [] ∧
+    (1 ≤ n → (natToDigits n).head? ≠ some 48) :=
+  ⟨parseUnsigned_natToDigits max n, digitsVal_natToDigits n, natToDigits_all n, natToDigits_ne_nil n,
+    natToDigits_no_leading_zero n⟩
+
+/-- the signed header: the printed lifetime is accepted iff it is an `i64` (both directions) -/
+theorem decimal_signed_roundtrip (z : Int) : lifetimeOk (intToDigits z) = true ↔ I64 z :=
+  lifetimeOk_intToDigits_iff z
+
+/-- what ELSE the number parser accepts (never written): leading zeros, a leading `+`; never a `-` in a field -/
+theorem decimal_reader_tolerates (max n : Nat) (r : List Nat) :
+    parseUnsigned max (48 :: natToDigits n) = (if n ≤ max then some n else none) ∧
+    parseUnsigned max (43 :: natToDigits n) = (if n ≤ max then some n else none) ∧
+    parseUnsigned max (45 :: r) = none :=
+  ⟨parseUnsigned_leading_zero max n, parseUnsigned_plus max n, parseUnsigned_minus max r⟩
+
+/-- the header is not trimmed: a blank before or after the number rejects the file (a `\r` before the `\n` is
+    dropped by `lines`: `text_reader_complete_crlf_pad`) -/
+theorem text_header_blank_rejected (n : Nat) :
+    lifetimeOk (32 :: natToDigits n) = false ∧ lifetimeOk (natToDigits n ++ [32]) = false :=
+  ⟨lifetimeOk_leading_blank n, lifetimeOk_trailing_blank n⟩
+
+/-- `text_reader_complete`: the text file of ANY store of text-valid records (1..11 syllable codes, valid UTF-8
+    phrase with one character per syllable and no ASCII white space, 32-bit fields), removed and negative records
+    interspersed (not written), any `i64` lifetime, is read back as exactly its live records, in order -/
+theorem text_reader_complete (lifetime : Int) (hl : I64 lifetime) (rs : List GRec) (hv : ∀ g ∈ rs, g.TextValid) :
+    loadUhash (encodeText lifetime rs) = .ok (.ok (liveRecs rs)) :=
+  loadUhash_encodeText lifetime hl rs hv
+
+/-- the same for `\r\n` line ends (also after the header) and any number of trailing blanks after record lines -/
+theorem text_reader_complete_crlf_pad (crlf : Bool) (pad : Nat) (lifetime : Int) (hl : I64 lifetime) (rs : List GRec)
+    (hv : ∀ g ∈ rs, g.TextValid) : loadUhash (encodeTextWith crlf pad lifetime rs) = .ok (.ok (liveRecs rs)) :=
+  loadUhash_encodeTextWith crlf pad lifetime hl rs hv
+
+/-- a header outside `i64` rejects the whole file (nothing migrates) — the exact converse for the lifetime -/
+theorem text_lifetime_out_of_range_rejected (lifetime : Int) (hl : ¬ I64 lifetime) (rs : List GRec)
+    (hv : ∀ g ∈ rs, g.TextValid) : loadUhash (encodeText lifetime rs) = .ok (.error ()) :=
+  loadUhash_encodeText_lifetime lifetime hl rs hv
+
+/-- the whole first start over a text legacy store (mirror of `migrate_bin_complete`): the legacy file is untouched,
+    the new dictionary is stored, every live record is in it with its frequency and time, and nothing else -/
+theorem migrate_text_complete (lifetime : Int) (hl : I64 lifetime) (rs : List GRec)
+    (hv : ∀ g ∈ rs, g.TextValid) (hd : (liveRecs rs).Pairwise (fun a b => keyOf a ≠ keyOf b)) :
+    ∃ l, load false { chewingDat := none, uhashDat := some (encodeText lifetime rs), sqlite := none } = .ok l ∧
+      l.dir.uhashDat = some (encodeText lifetime rs) ∧
+      ∃ m, l.dict = .ok m ∧ l.dir.chewingDat = some (.valid m) ∧
+        (∀ r ∈ liveRecs rs, find? m (keyOf r) = some (valOf r)) ∧
+        (∀ e ∈ m, ∃ r ∈ liveRecs rs, e = (keyOf r, valOf r)) :=
+  ⟨_, first_start false none (Or.inl rfl) (text_reader_complete lifetime hl rs hv), rfl, _, rfl, rfl,
+    migrate_complete hd, migrate_exact _⟩
+
+/-! ### what the text format cannot express (the class `TextValid` excludes) -/
+
+/-- the FULL statement — over every record the BINARY format can hold — … -/
+def TextReaderCompleteFull : Prop :=
+  ∀ (lifetime : Int) (rs : List GRec), I64 lifetime → (∀ g ∈ rs, g.Valid) →
+    loadUhash (encodeText lifetime rs) = .ok (.ok (liveRecs rs))
+
+/-- a binary-valid record whose phrase contains a blank: "a b", three syllables -/
+def sepRec : GRec := ⟨[10268, 8708, 10268], [97, 32, 98], [9, 7, 9, 1], false⟩
+/-- a binary-valid record with fewer characters than syllables: "策", two syllables -/
+def ccRec : GRec := ⟨[10268, 8708], [0xE7, 0xAD, 0x96], [9, 7, 9, 1], false⟩
+
+/-- `text_separator_refuted`: the blank splits the phrase column ("a", then "b" where a syllable number is
+    expected): the line is malformed and the WHOLE file is rejected -/
+theorem text_separator_refuted :
+    sepRec.Valid ∧ sepRec.live = true ∧ ¬ sepRec.TextValid ∧
+    loadUhash (encodeText 0 [sepRec]) = .ok (.error ()) ∧
+    loadUhash (encodeText 0 [sepRec]) ≠ .ok (.ok (liveRecs [sepRec])) := by decide
+
+/-- `text_charcount_refuted`: the reader takes as many syllable columns as the phrase has characters — here one —
+    so "策 10268 8708 9 7 9 1" is read as a DIFFERENT record: key [10268], frequency 8708, time 9 -/
+theorem text_charcount_refuted :
+    ccRec.Valid ∧ ccRec.live = true ∧ ¬ ccRec.TextValid ∧
+    loadUhash (encodeText 0 [ccRec]) =
+      .ok (.ok [{ syls := [10268], phrase := [0xE7, 0xAD, 0x96], freq := 8708, time := 9 }]) ∧
+    loadUhash (encodeText 0 [ccRec]) ≠ .ok (.ok (liveRecs [ccRec])) := by decide
+
+/-- … is false; `text_reader_complete` is its `_partial` with the exact class `TextValid` -/
+theorem text_reader_complete_full_refuted : ¬ TextReaderCompleteFull := fun h =>
+  text_separator_refuted.2.2.2.2 (h 0 [sepRec] (by unfold I64; omega) (fun g hg => by
+    rw [List.mem_singleton.mp hg]; exact text_separator_refuted.1))
+
+/-- "0\n策試 10268 8708 -1 7 9 1\n": a negative field as the legacy `%d` would print it -/
+def negFile : List Nat :=
+  [48, 10, 0xE7, 0xAD, 0x96, 0xE8, 0xA9, 0xA6, 32, 49, 48, 50, 54, 56, 32, 56, 55, 48, 56, 32, 45, 49, 32, 55, 32, 57, 32, 49, 10]
+
+/-- `text_negative_field_rejected`: the text format has no negative fields — such a line rejects the whole file, the
+    first start creates an empty dictionary and nothing migrates (also not the other, well-formed lines) -/
+theorem text_negative_field_rejected :
+    loadUhash negFile = .ok (.error ()) ∧
+    load false { chewingDat := none, uhashDat := some negFile, sqlite := none } =
+      .ok { dict := .ok [], dir := { chewingDat := some (.valid []), uhashDat := some negFile, sqlite := none } } := by
+  have h : loadUhash negFile = .ok (.error ()) := by decide
+  refine ⟨h, ?_⟩
+  unfold load
+  simp [h]
+
+/-! ### non-vacuity of the text theorems -/
+
+/-- the record of the repository fixture `tests/data/golden-uhash-text.dat` -/
+def textGolden : GRec := ⟨[10268, 8708], [0xE7, 0xAD, 0x96, 0xE8, 0xA9, 0xA6], [9999, 6, 9999, 9231], false⟩
+
+/-- `encodeText` reproduces the fixture byte for byte (its 37 bytes: "6\n策試 10268 8708 9999 6 9999 9231\n") -/
+theorem text_golden_bytes : encodeText 6 [textGolden] =
+    [54, 10, 231, 173, 150, 232, 169, 166, 32, 49, 48, 50, 54, 56, 32, 56, 55, 48, 56, 32, 57, 57, 57, 57, 32, 54, 32,
+     57, 57, 57, 57, 32, 57, 50, 51, 49, 10] := by decide
+
+example : textGolden.TextValid := by decide
+example : I64 6 ∧ I64 (-9223372036854775808) ∧ I64 9223372036854775807 ∧ ¬ I64 9223372036854775808 := by
+  unfold I64; omega
+example : loadUhash (encodeText 6 [textGolden]) =
+    .ok (.ok [{ syls := [10268, 8708], phrase := [0xE7, 0xAD, 0x96, 0xE8, 0xA9, 0xA6], freq := 9999, time := 6 }]) :=
+  text_reader_complete 6 (by unfold I64; omega) [textGolden] (fun g hg => by rw [List.mem_singleton.mp hg]; decide)
+
+/-- an 11-syllable record (ten 3-byte characters and a 2-byte one), maximal frequency -/
+def textEleven : GRec :=
+  ⟨[10268, 8708, 10268, 8708, 10268, 8708, 10268, 8708, 10268, 8708, 10268],
+   [0xE7, 0xAD, 0x96, 0xE8, 0xA9, 0xA6, 0xE7, 0xAD, 0x96, 0xE8, 0xA9, 0xA6, 0xE7, 0xAD, 0x96, 0xE8, 0xA9, 0xA6,
+    0xE7, 0xAD, 0x96, 0xE8, 0xA9, 0xA6, 0xE7, 0xAD, 0x96, 0xE8, 0xA9, 0xA6, 0xC3, 0xA9],
+   [2147483647, 0, 5, 100000], false⟩
+
+example : textEleven.TextValid ∧ textEleven.live = true := by decide
+/-- a store with a removed and a negative record in between: they are not written, the others migrate -/
+example : liveRecs [textEleven, ⟨[10268], [0xE7, 0xAD, 0x96], [3, 4, 3, 0], true⟩,
+    ⟨[8708], [0xE8, 0xA9, 0xA6], [3, 4294967295, 3, 0], false⟩, textGolden] = [textEleven.toRec, textGolden.toRec] := by
+  decide
+example : (liveRecs [textEleven, textGolden]).Pairwise (fun a b => keyOf a ≠ keyOf b) := by decide
+example : natToDigits 0 = [48] ∧ natToDigits 10268 = [49, 48, 50, 54, 56] ∧
+    intToDigits (-9223372036854775808) =
+      [45, 57, 50, 50, 51, 51, 55, 50, 48, 51, 54, 56, 53, 52, 55, 55, 53, 56, 48, 56] := by decide
+
 /-! ## Not proved (named gaps)
 
-`TextReaderComplete`: the text encoding of any store of valid records reads back exactly its
-records.  The text reader model is validated by correspondence on generated stores and the oracle
-compares against the generator's own record list; the decimal print/parse round trip is not proved.
+(`TextReaderComplete` — formerly listed here — is now proved for the exact class the text format can express:
+section "The text format" above; the statement over ALL binary-valid records, `TextReaderCompleteFull`, is false:
+`text_reader_complete_full_refuted`.  Not proved there: the converse "a live record that is not `TextValid` never
+round-trips" in general — only the two witnesses — and legacy text files written with OTHER layouts than
+blank-separated columns / `\n` or `\r\n` line ends / trailing blanks, e.g. tabs as separators, which the reader model
+accepts as well and which are covered by correspondence only.)
 `SqliteMigrates`: the current-schema SQLite store is abstract in the model (`sqlite := some (some rows)`
 = the rows `SqliteDictionary::entries()` yields); the v1 → v2 migration inside the file has the
 relational model of `Model/SqliteV1.lean` (section below), SQLite itself (storage, the SQL engine,
